@@ -5,16 +5,14 @@
   PFM all read the amount string with `sdkmath.NewIntFromString`, which is
   `new(big.Int).SetString(s, 0)` — **base 0**: optional sign, then `0x`/`0X` hex, `0b`/`0B` binary,
   `0o`/`0O` octal, a bare leading `0` = legacy octal, otherwise decimal; `_` may separate digits —
-  followed by the 256-bit overflow check.  (`EncodeABIFungibleTokenPacketData` instead uses
-  `SetString(s, 10)`, modelled by `Abi.parseBig10`.)
+  followed by the 256-bit overflow check.  (`EncodeABIFungibleTokenPacketData` uses the same reader since fix 6129489; before it
+  used `SetString(s, 10)`, still modelled by `Abi.parseBig10` for reference.)
 
   `scan0` mirrors `nat.scan(r, 0, false)` of Go's math/big (natconv.go) together with the
   "entire content must have been consumed" check of `setFromScanner`: a character that stops the
   digit loop makes the whole parse fail, so it is modelled as `none`.
 -/
-import IbcVerif.Model.Abi
 namespace IbcVerif.Abi
-open IbcVerif
 
 /-- digit value of a character as in `nat.scan` (values ≥ 36 never pass `d1 < b`) -/
 def digitVal (c : Char) : Nat :=
